@@ -276,6 +276,28 @@ def texts_for(prop: str, tier: str, seed: int):
             if i < len(g):
                 out.append((f"small{gi}/replace@{i}", [g[:i], 1, g[i + 1 :]]))
             out.append((f"small{gi}/insert@{i}", [g[:i], 1, g[i:]]))
+    # printed grammars of the generated family F1 (+ stack family): concrete text, and one
+    # symbolic character replaced / inserted at a seeded offset of every k-th grammar
+    import random as _random
+
+    from .. import family as _family
+
+    fam = _family.family(["none", "both", "cmn", "wsm"]) + _family.stack_family()
+    rnd = _random.Random(seed)
+    seen_txt = set()
+    k = 0
+    for m in fam:
+        t = m["text"]
+        if t in seen_txt:
+            continue
+        seen_txt.add(t)
+        k += 1
+        if prop == "C10" and (tier == "thorough" or k % 3 == 0):
+            out.append((f"fam/{m['id']}", [t]))
+        if k % (40 if tier == "quick" else 8) == 0:
+            off = rnd.randrange(len(t))
+            out.append((f"fam/{m['id']}/replace@{off}", [t[:off], 1, t[off + 1 :]]))
+            out.append((f"fam/{m['id']}/insert@{off}", [t[:off], 1, t[off:]]))
     if prop == "C11":
         # every truncation, bare and followed by one arbitrary character
         srcs = [pre + "ab" + suf for _n, pre, suf in SLOTS[:20]] + SMALL
@@ -305,6 +327,11 @@ def main_for(prop: str, tier: str, seed: int, args) -> int:
         texts = [t for t in texts if args.only in t[0]]
     SPLITS = [(0, 0x20), (0x21, 0x27), (0x28, 0x2F), (0x30, 0x40), (0x41, 0x5A), (0x5B, 0x60), (0x61, 0x7A), (0x7B, symx.MAXCP)]
     tasks = []
+    concrete_fam = [(n, p) for n, p in texts if n.startswith("fam/") and not any(isinstance(x, int) for x in p)]
+    texts = [(n, p) for n, p in texts if (n, p) not in concrete_fam] if concrete_fam else texts
+    for i in range(0, len(concrete_fam), 60):
+        part = concrete_fam[i : i + 60]
+        tasks.append({"fn": "c10", "unit": f"fam-concrete/{i // 60:03d}", "prop": prop, "split": None, "texts": part, "regions": {}, "max_paths": 10, "budget_s": 200})
     for name, parts in texts:
         wide = sum(p for p in parts if isinstance(p, int)) >= 2
         for sp in SPLITS if wide else [None]:
